@@ -17,8 +17,21 @@ FACES = lambda: np.array([[0, 1, 2], [2, 3, 4], [3, 4, 5], [0, 2, 5]])          
 class Kind:
     """name, build(arrays)->holder, members(holder)->{name: TrackedArray}, setters {name: f(holder, array)}"""
 
-    def __init__(self, name, arrays, build, members, setters=None):
+    def __init__(self, name, arrays, build, members, setters=None, mutators=None, copy=None, none_ok=(),
+                 warm=None, equal_content_equal_hash=False, rebuild=None, extra_content=None):
         self.name, self.arrays, self.build, self.members, self.setters = name, arrays, build, members, setters or {}
+        self.mutators = mutators or []      # library operations that rewrite the member arrays: (name, f(holder))
+        self.copy = copy                    # f(holder) -> an independent object of the same kind
+        self.none_ok = tuple(none_ok)       # members whose public setter accepts None / an empty array
+        self.warm = warm                    # f(holder): read cached values (forces a verify of the hash)
+        # meshes, paths and point clouds: the statement promises that two objects holding equal arrays hash
+        # equal, so the hash of a copy may be compared with the hash of the original; for visuals and scenes
+        # only the object itself is compared with itself and with a freshly built one
+        self.equal_content_equal_hash = equal_content_equal_hash
+        # f(holder, arrays): fresh object from copies of the arrays AND of whatever else the holder's hash covers
+        # by design (the entities of a path, which merge_vertices / process re-index); default build(arrays)
+        self.rebuild = rebuild
+        self.extra_content = extra_content   # f(holder) -> bytes: that other content, for the identity of a state
 
 
 def kinds(trimesh):
@@ -43,14 +56,10 @@ def kinds(trimesh):
         return trimesh.path.Path2D(entities=[Line([0, 1, 2, 3, 4, 0])], vertices=a["vertices"].copy(), process=False)
 
     def vcolor(a):
-        m = trimesh.Trimesh(vertices=F3(), faces=FACES(), process=False)
-        m.visual.vertex_colors = a["vertex_colors"].copy()
-        return m.visual
+        return trimesh.visual.ColorVisuals(vertex_colors=a["vertex_colors"].copy())
 
     def fcolor(a):
-        m = trimesh.Trimesh(vertices=F3(), faces=FACES(), process=False)
-        m.visual.face_colors = a["face_colors"].copy()
-        return m.visual
+        return trimesh.visual.ColorVisuals(face_colors=a["face_colors"].copy())
 
     def texture(a):
         return trimesh.visual.TextureVisuals(uv=a["uv"].copy())
@@ -86,31 +95,82 @@ def kinds(trimesh):
         gname, attr = which.split(".")
         return lambda sc, arr: setattr(sc.geometry[gname], attr, arr)
 
+    R = trimesh.transformations.rotation_matrix(0.5, [0, 0, 1], point=[1, 0, 0])
+    MIRROR = np.diag([-1.0, 1, 1, 1])
+    MIRROR_SCALE = np.diag([2.0, -3.0, 1, 1])
+    P_ROT = trimesh.transformations.planar_matrix(offset=[1, 2], theta=0.3)
+    P_MIRROR = np.diag([-1.0, 1, 1])
+
+    def call(name, *args, **kw):
+        return lambda o: getattr(o, name)(*args, **kw)
+
+    mesh_mut = [("apply_transform_rotation", call("apply_transform", R)),
+                ("apply_transform_mirror", call("apply_transform", MIRROR)),
+                ("apply_transform_mirror_scale", call("apply_transform", MIRROR_SCALE)),
+                ("apply_translation", call("apply_translation", [1.0, 2.0, 3.0])),
+                ("apply_scale", call("apply_scale", 2.0)), ("apply_scale_negative", call("apply_scale", -1.0)),
+                ("invert", call("invert")), ("rezero", call("rezero")), ("merge_vertices", call("merge_vertices")),
+                ("update_faces_mask", lambda m: m.update_faces(np.arange(len(m.faces)) != 1)),
+                ("update_vertices_mask", lambda m: m.update_vertices(np.arange(len(m.vertices)) != len(m.vertices) - 1)),
+                ("remove_unreferenced_after_update_faces",
+                 lambda m: (m.update_faces(np.arange(len(m.faces)) == len(m.faces) - 1), m.remove_unreferenced_vertices())),
+                ("unmerge_vertices", call("unmerge_vertices")), ("process", call("process"))]
+    cloud_mut = [("apply_transform_rotation", call("apply_transform", R)), ("apply_transform_mirror", call("apply_transform", MIRROR)),
+                 ("apply_translation", call("apply_translation", [1.0, 2.0, 3.0])), ("apply_scale", call("apply_scale", 2.0))]
+    path3_mut = cloud_mut + [("merge_vertices", call("merge_vertices")), ("process", call("process")),
+                             ("remove_unreferenced_vertices", call("remove_unreferenced_vertices"))]
+    path2_mut = [("apply_transform_rotation", call("apply_transform", P_ROT)), ("apply_transform_mirror", call("apply_transform", P_MIRROR)),
+                 ("apply_translation", call("apply_translation", [1.0, 2.0])), ("apply_scale", call("apply_scale", 2.0)),
+                 ("rezero", call("rezero")), ("merge_vertices", call("merge_vertices")), ("process", call("process")),
+                 ("remove_unreferenced_vertices", call("remove_unreferenced_vertices"))]
+
+    def in_scene(gname, f):
+        return lambda sc: f(sc.geometry[gname])
+    scene_mut = [("m." + n, in_scene("m", f)) for n, f in mesh_mut[:4]] + [("c." + n, in_scene("c", f)) for n, f in cloud_mut[:2]] + \
+                [("p." + n, in_scene("p", f)) for n, f in path2_mut[:2]] + [("t." + n, in_scene("t", f)) for n, f in mesh_mut[1:2]]
+    cp = call("copy")
+
+    def path_entities(h):
+        return repr([(type(e).__name__, np.asarray(e.points).tolist()) for e in h.entities]).encode()
+
+    def path_rebuild(h, arrays):
+        import copy
+        return type(h)(entities=copy.deepcopy(list(h.entities)), vertices=arrays["vertices"], process=False)
+    setv = lambda m, x: setattr(m, "vertices", x)      # noqa: E731
+    setf = lambda m, x: setattr(m, "faces", x)         # noqa: E731
     vf = {"vertices": F3(), "faces": FACES()}
     ks = [
         Kind("mesh", vf, mesh, lambda m: {"vertices": m.vertices, "faces": m.faces},
-             {"vertices": lambda m, x: setattr(m, "vertices", x), "faces": lambda m, x: setattr(m, "faces", x)}),
+             {"vertices": setv, "faces": setf}, mesh_mut, cp, ("vertices", "faces"),
+             lambda m: (m.area, m.face_normals, m.bounds), True),
         Kind("mesh_center_mass", dict(vf, center_mass=np.array([0.5, 1.5, 2.5])), mesh_cm,
              lambda m: {"vertices": m.vertices, "faces": m.faces, "center_mass": m._data["center_mass"]},
-             {"center_mass": lambda m, x: setattr(m, "center_mass", x)}),
+             {"center_mass": lambda m, x: setattr(m, "center_mass", x), "vertices": setv, "faces": setf},
+             mesh_mut[:5], cp, ("vertices", "faces"), lambda m: (m.area, m.bounds), True),
         Kind("points", {"vertices": F3()}, points, lambda m: {"vertices": m.vertices},
-             {"vertices": lambda m, x: setattr(m, "vertices", x)}),
+             {"vertices": setv}, cloud_mut, cp, ("vertices",), lambda m: (m.bounds,), True),
         Kind("path3d", {"vertices": F3()}, path3, lambda m: {"vertices": m.vertices},
-             {"vertices": lambda m, x: setattr(m, "vertices", x)}),
+             {"vertices": setv}, path3_mut, cp, ("vertices",), lambda m: (m.length, m.bounds), True, path_rebuild, path_entities),
         Kind("path2d", {"vertices": F2()}, path2, lambda m: {"vertices": m.vertices},
-             {"vertices": lambda m, x: setattr(m, "vertices", x)}),
+             {"vertices": setv}, path2_mut, cp, ("vertices",), lambda m: (m.length, m.bounds), True, path_rebuild, path_entities),
         Kind("vertex_colors", {"vertex_colors": U4(6)}, vcolor, lambda v: {"vertex_colors": v._data["vertex_colors"]},
-             {"vertex_colors": lambda v, x: setattr(v, "vertex_colors", x)}),
+             {"vertex_colors": lambda v, x: setattr(v, "vertex_colors", x)},
+             [("update_vertices_mask", lambda v: v.update_vertices(np.arange(len(v._data["vertex_colors"])) != 1))], None),   # (ColorVisuals.copy() needs the mesh)
         Kind("face_colors", {"face_colors": U4(4)}, fcolor, lambda v: {"face_colors": v._data["face_colors"]},
-             {"face_colors": lambda v, x: setattr(v, "face_colors", x)}),
+             {"face_colors": lambda v, x: setattr(v, "face_colors", x)},
+             [("update_faces_mask", lambda v: v.update_faces(np.arange(len(v._data["face_colors"])) != 1))], None),
         Kind("texture_uv", {"uv": F2() / 16}, texture,
-             lambda v: {"uv": v.vertex_attributes["uv"]}, {"uv": lambda v, x: setattr(v, "uv", x)}),
-        Kind("pointcloud_colors", {"colors": U4(6)}, pcolor, lambda v: {"colors": v._colors}, {}),
+             lambda v: {"uv": v.vertex_attributes["uv"]}, {"uv": lambda v, x: setattr(v, "uv", x)},
+             [("update_vertices_mask", lambda v: v.update_vertices(np.arange(len(v.vertex_attributes["uv"])) != 1))], cp),
+        Kind("pointcloud_colors", {"colors": U4(6)}, pcolor, lambda v: {"colors": v._colors}, {}, [], cp),
         Kind("scene_mixed", {"m.vertices": F3(), "m.faces": FACES(), "c.vertices": F3()[:4] * 2, "p.vertices": F2(),
                              "t.vertices": F3(), "t.faces": FACES()},   # t holds the same arrays as m
-             scene_mixed, scene_members, {k: set_scene(k) for k in ("m.vertices", "c.vertices", "p.vertices", "t.faces")}),
+             scene_mixed, scene_members, {k: set_scene(k) for k in ("m.vertices", "c.vertices", "p.vertices", "t.faces")},
+             scene_mut, cp, ("m.vertices", "t.faces"), lambda sc: (sc.bounds,)),
         Kind("scene_same_mesh_twice", {"g.vertices": F3(), "g.faces": FACES()}, scene_twice, scene_members,
-             {"g.vertices": set_scene("g.vertices")}),
+             {"g.vertices": set_scene("g.vertices")},
+             [("g." + n, (lambda f: lambda sc: f(sc.geometry["g"]))(f)) for n, f in mesh_mut[:3]], cp, ("g.vertices",),
+             lambda sc: (sc.bounds,)),
     ]
     return ks
 
@@ -170,18 +230,55 @@ def e_setter_roll(get, setter):
     setter(new.tolist() if new.dtype.kind == "f" else new)
 
 
+def e_setter_none(get, setter):
+    setter(None)
+
+
+def e_setter_none_then_same(get, setter):
+    a = np.array(get())
+    setter(None)
+    setter(a)
+
+
+def e_setter_empty_then_same(get, setter):
+    a = np.array(get())
+    setter(a[:0])
+    setter(a)
+
+
+def e_setter_none_then_changed(get, setter):
+    a = np.array(get())
+    setter(None)
+    a[0] = a[0] + _delta(a)
+    setter(a)
+
+
 EDITS = [("setitem_row", e_setitem_row), ("setitem_last_item", e_setitem_last_item), ("iadd", e_iadd),
          ("slice_col", e_slice_col), ("mask", e_mask), ("imul_isub", e_imul_isub),
          ("setter", e_setter), ("setter_changed_row", e_setter_roll)]
+# re-assignment histories through the public setter (only for members whose setter documents None / empty)
+NONE_EDITS = [("setter_none", e_setter_none), ("setter_none_then_same", e_setter_none_then_same),
+              ("setter_empty_then_same", e_setter_empty_then_same), ("setter_none_then_changed", e_setter_none_then_changed)]
 
-# history templates: H = read the hash, E = edit member A, F = edit member B (or A again by the next
-# route when the container has one member), R = put the original bytes of every member back in place,
-# T = read the hash of a twin built separately from the same arrays
-TEMPLATES = ["HEH", "TEH", "HEEH", "HEHRH", "EHRH", "HEHFH", "HFHEH", "HEFHRHT", "HHEHH", "TEHRHEH"]
+# history templates: H = read the hash, E = edit member A (or run the library mutator), F = edit member B (or A
+# again by the next route when the container has one member), R = put the original content of every member back
+# (in place where the shape still fits, else through the setter), T = read the hash of a twin built separately
+# from the same arrays, V = read cached values of the container (the cache verifies the hash),
+# c = take a copy with the library's copy() and direct the following edits at the copy, o = direct them at the
+# original again, h = read the hash of the copy
+TEMPLATES = ["HEH", "TEH", "HEEH", "HEHRH", "EHRH", "HEHFH", "HFHEH", "HEFHRHT", "HHEHH", "TEHRHEH",
+             "VHEH", "HEVH", "HcEH", "HcEhH", "VHcEVH", "HchoEhH", "HEcFhH"]
+# (member edit) x template combinations that add nothing over the others are not run: the plain in-place routes
+# meet the copy / cached-value templates through two representatives
+LONG = ("VHEH", "HEVH", "HcEH", "HcEhH", "VHcEVH", "HchoEhH", "HEcFhH")
+REPRESENTATIVE_EDITS = ("setitem_row", "iadd", "setter")
 
 
 def run_history(trimesh, kind, member, other, edit, edit2, template, hash_ids, key_ids):
+    """edit / edit2: ("member", name, f(get, setter)) or ("mutator", name, f(holder))"""
     holder = kind.build(kind.arrays)
+    objs = {"orig": holder, "copy": None}
+    cur = "orig"
     orig = {k: np.array(v) for k, v in kind.members(holder).items()}
     for k, v in kind.members(holder).items():
         if type(v).__name__ != "TrackedArray":
@@ -194,67 +291,122 @@ def run_history(trimesh, kind, member, other, edit, edit2, template, hash_ids, k
         return table[value]
 
     def content(h):
-        return b"|".join(k.encode() + b":" + np.ascontiguousarray(np.asarray(v)).tobytes()
-                         for k, v in sorted(kind.members(h).items()))
+        extra = kind.extra_content(h) if kind.extra_content is not None else b""
+        return extra + b"|".join(k.encode() + repr(np.asarray(v).shape).encode() + b":" + np.ascontiguousarray(np.asarray(v)).tobytes()
+                                 for k, v in sorted(kind.members(h).items()))
 
-    def getter(name):
-        return lambda: kind.members(holder)[name]
+    def rebuild(h):
+        arrays = {k: np.array(v) for k, v in kind.members(h).items()}
+        return kind.rebuild(h, arrays) if kind.rebuild is not None else kind.build(arrays)
 
-    def setter(name):
-        f = kind.setters.get(name)
-        if f is None:
-            return None
-        return lambda arr: f(holder, arr)
+    def read(h, label):
+        ks.append(ident(key_ids, content(h)))
+        hs.append(ident(hash_ids, h.__hash__()))
+        fresh = rebuild(h)
+        if content(fresh) != content(h):
+            raise MachineryError(f"{kind.name}: rebuilt container does not hold the same bytes")
+        fs.append(ident(hash_ids, fresh.__hash__()))
+        steps.append(label)
 
     def do_edit(name, ed):
-        st = setter(name)
-        edn, edf = ed
+        tgt = objs[cur]
+        cls, edn, edf = ed
+        if cls == "mutator":
+            edf(tgt)
+            steps.append(f"{edn}() on {cur}")
+            return
+        f = kind.setters.get(name)
+        st = (lambda arr: f(tgt, arr)) if f is not None else None
         if st is None and edn.startswith("setter"):
             edn, edf = EDITS[0]
-        edf(getter(name), st)
-        steps.append(f"{edn}({name})")
+        edf(lambda: kind.members(tgt)[name], st)
+        steps.append(f"{edn}({name}) on {cur}")
 
     for ch in template:
-        if ch in "HT":
-            tgt = holder if ch == "H" else kind.build({k: np.array(v) for k, v in kind.members(holder).items()})
-            ks.append(ident(key_ids, content(tgt)))
-            hs.append(ident(hash_ids, tgt.__hash__()))
-            fresh = kind.build({k: np.array(v) for k, v in kind.members(holder).items()})
-            if content(fresh) != content(holder):
-                raise MachineryError(f"{kind.name}: rebuilt container does not hold the same bytes")
-            fs.append(ident(hash_ids, fresh.__hash__()))
-            steps.append("hash" if ch == "H" else "hash_of_twin")
+        if ch == "H":
+            read(holder, "hash")
+        elif ch == "T":
+            twin = rebuild(holder)
+            ks.append(ident(key_ids, content(twin)))
+            hs.append(ident(hash_ids, twin.__hash__()))
+            fs.append(ident(hash_ids, rebuild(holder).__hash__()))
+            steps.append("hash_of_twin")
+        elif ch == "h":
+            if kind.equal_content_equal_hash:
+                read(objs["copy"], "hash_of_copy")
         elif ch == "E":
             do_edit(member, edit)
         elif ch == "F":
             do_edit(other, edit2)
+        elif ch == "V":
+            if kind.warm is not None:
+                try:
+                    kind.warm(objs[cur])
+                    steps.append(f"read_cached_values on {cur}")
+                except Exception as e:   # e.g. faces edited to indexes beyond the vertices: only a pre-state
+                    steps.append(f"read_cached_values on {cur} raised {type(e).__name__}")
+        elif ch == "c":
+            objs["copy"] = kind.copy(holder)
+            cur = "copy"
+            steps.append("copy()")
+        elif ch == "o":
+            cur = "orig"
         elif ch == "R":
+            tgt = objs[cur]
             for k in orig:
-                a = kind.members(holder)[k]
-                a[...] = orig[k]
-            steps.append("restore_in_place")
+                a = kind.members(tgt)[k]
+                if np.asarray(a).shape == orig[k].shape:
+                    a[...] = orig[k]
+                elif k in kind.setters:
+                    kind.setters[k](tgt, orig[k].copy())
+                else:
+                    raise MachineryError(f"{kind.name}.{k}: cannot restore")
+            steps.append(f"restore on {cur}")
     return {"kind": kind.name, "member": member, "template": template, "steps": steps,
             "k": ks, "h": hs, "f": fs, "exc": ""}
 
 
 def cases(trimesh, tier, seed):
-    """All (container kind x member x edit route x template) histories (about a second of Python, so
-    both tiers take all of them)."""
+    """(container kind x member x edit route x template) and (container kind x library mutator x template)
+    histories; a few seconds of Python, so both tiers take all of them."""
     out = []
-    per_kind = {}
+    per_kind, per_family = {}, {"member_edit": 0, "setter_none_or_empty": 0, "library_mutator": 0, "with_copy": 0}
     for kind in kinds(trimesh):
         names = sorted(kind.arrays)
         hash_ids, key_ids = {}, {}
         n = 0
+        work = []
         for mi, member in enumerate(names):
             other = names[(mi + 1) % len(names)]
-            for ei, ed in enumerate(EDITS):
-                ed2 = EDITS[(ei + 3) % len(EDITS)]
-                for ti, tpl in enumerate(TEMPLATES):
-                    rec = run_history(trimesh, kind, member, other, ed, ed2, tpl, hash_ids, key_ids)
-                    out.append(rec)
-                    n += 1
+            for ei, (edn, edf) in enumerate(EDITS):
+                ed2 = ("member",) + EDITS[(ei + 3) % len(EDITS)]
+                for tpl in TEMPLATES:
+                    if tpl in LONG and edn not in REPRESENTATIVE_EDITS:
+                        continue
+                    work.append(("member_edit", member, other, ("member", edn, edf), ed2, tpl))
+            if member in kind.none_ok:
+                for edn, edf in NONE_EDITS:
+                    for tpl in ("HEH", "TEH", "HEHRH", "HEHFH", "HFHEH", "VHEH", "HEcFhH", "TEHRHEH"):
+                        if edn == "setter_none" and ("F" in tpl or tpl == "TEHRHEH"):
+                            continue   # the member is empty after the edit: nothing to edit in place
+                        work.append(("setter_none_or_empty", member, other, ("member", edn, edf), ("member",) + EDITS[0], tpl))
+        for qi, (mn, mf) in enumerate(kind.mutators):
+            nxt = kind.mutators[(qi + 1) % len(kind.mutators)]
+            for tpl in TEMPLATES:
+                # the second edit goes to a member that is not an index array, so that the geometry stays valid
+                safe = [x for x in names if not x.endswith("faces")]
+                work.append(("library_mutator", "*", safe[qi % len(safe)], ("mutator", mn, mf),
+                             ("member",) + EDITS[qi % 6], tpl))
+        for fam, member, other, ed, ed2, tpl in work:
+            if "c" in tpl and kind.copy is None:
+                continue
+            rec = run_history(trimesh, kind, member, other, ed, ed2, tpl, hash_ids, key_ids)
+            rec["family"] = fam
+            out.append(rec)
+            per_family[fam] += 1
+            per_family["with_copy"] += "c" in tpl
+            n += 1
         per_kind[kind.name] = n
     for i, c in enumerate(out):
         c["id"] = i
-    return out, per_kind
+    return out, per_kind, per_family
